@@ -161,6 +161,7 @@ type ScanOpts struct {
 	Faults    *FaultPlan
 	StaleView bool // serve the previous scan's snapshot again
 	BeforeGet func(name string)
+	MidScan   bool // the world changes while the scan runs (exact-count oracles do not apply)
 }
 
 // GaugeVals are the per-group gauges written by a scan (NaN when the scan did not write them).
@@ -193,6 +194,7 @@ type ScanRecord struct {
 	Err     error
 	Panic   interface{}
 	Stack   string
+	MidScan bool // something changed a node between the snapshot and escalator's read
 	Crashed bool // injected process death
 	Fatal   bool // escalator called log.Fatal
 	Faults  *FaultPlan
@@ -246,6 +248,7 @@ func (e *Env) RunScan(o ScanOpts) *ScanRecord {
 		e.K.View.TakenAt = time.Now().UnixNano()
 	}
 	rec.View = e.K.View
+	rec.MidScan = o.MidScan
 	e.K.BeforeGet = o.BeforeGet
 
 	e.Faults.ByIndex, e.Faults.ByNode, e.Faults.ByAPI, e.Faults.Ordinal, e.Faults.ByNodeUpdate = nil, nil, nil, nil, nil
